@@ -121,10 +121,13 @@ Definition int_line (z : Z) : option string :=
 Definition addr_line (s : string) : option string :=
   if valid_address s then Some ("addr " ++ s) else None.
 
-(* ---- MethodSignature: non-empty text put between double quotes as it is ---- *)
+(* ---- MethodSignature (after /repo ae4cf37): non-empty text without double quote, backslash,
+   LF and CR, put between double quotes as it is ---- *)
 Definition method_arg (s : string) : string := String dquote (s ++ String dquote "").
+Definition sig_bad (c : ascii) : bool :=
+  Ascii.eqb c dquote || Ascii.eqb c backslash || Ascii.eqb c "010"%char || Ascii.eqb c "013"%char.
 Definition method_line (s : string) : option string :=
   match s with
   | "" => None
-  | _ => Some ("method " ++ method_arg s)
+  | _ => if existsb sig_bad (list_ascii_of_string s) then None else Some ("method " ++ method_arg s)
   end.
